@@ -101,6 +101,7 @@ V['C05'] = [
     ('central falls back to a one-sided formula when f raises', FD, '        return (f(x0i + h) - f(x0i - h)) / 2.0', '        try:\n            return (f(x0i + h) - f(x0i - h)) / 2.0\n        except ValueError:\n            return (4 * f(x0i + h) - f(x0i + 2 * h) - 3 * f(x0i)) / 2.0', 'F', 'R-ADMISSIBLE'),
 ]
 V['C07'] = [
+    ('revert fix 4fd4c6c (signed step in the single-estimate error)', EXT, '            return (np.abs(new_sequence) * EPS + np.abs(steps)) * fact', '            return (np.abs(new_sequence) * EPS + steps) * fact', 'F', 'R-NONNEG'),
     ('rule memo keyed before the term count is clamped', EXT, '        num_terms = min(self.num_terms, sequence_length - 1)\n        if num_terms > 0:\n            r_mat = self._r_matrix(self.step_ratio, self.step, num_terms, self.order)\n            return linalg.pinv(r_mat)[0]\n        return np.ones((1,))', "        key = (self.step_ratio, self.step, self.num_terms, self.order)\n        memo = getattr(self, '_memo', None)\n        if memo is not None and memo[0] == key:\n            return memo[1].copy()\n        num_terms = min(self.num_terms, sequence_length - 1)\n        if num_terms > 0:\n            r_mat = self._r_matrix(self.step_ratio, self.step, num_terms, self.order)\n            rule = linalg.pinv(r_mat)[0]\n        else:\n            rule = np.ones((1,))\n        self._memo = (key, rule)\n        return rule.copy()", 'F', 'R-REUSE'),
     ('rule memo keyed by the clamped term count', EXT, '        num_terms = min(self.num_terms, sequence_length - 1)\n        if num_terms > 0:\n            r_mat = self._r_matrix(self.step_ratio, self.step, num_terms, self.order)\n            return linalg.pinv(r_mat)[0]\n        return np.ones((1,))', "        num_terms = min(self.num_terms, sequence_length - 1)\n        key = (self.step_ratio, self.step, num_terms, self.order)\n        memo = getattr(self, '_memo', None)\n        if memo is not None and memo[0] == key:\n            return memo[1].copy()\n        if num_terms > 0:\n            r_mat = self._r_matrix(self.step_ratio, self.step, num_terms, self.order)\n            rule = linalg.pinv(r_mat)[0]\n        else:\n            rule = np.ones((1,))\n        self._memo = (key, rule)\n        return rule.copy()", 'S', None),
     ('r_matrix exponent shifted', EXT, 'r_mat[:, 1:] = (1.0 / step_ratio) ** (i * (step * j + order))', 'r_mat[:, 1:] = (1.0 / step_ratio) ** (i * (step * (j + 1) + order))', 'F', 'R-EXTRAP'),
